@@ -292,12 +292,20 @@ def clone(v):
             kw["oddpos"] = [
                 sr.FermionicOperator(o.label, o.dual) for o in raw_oddpos(v)
             ]
-        new = type(v)(
-            indices=tuple(clone_index(ix) for ix in v.indices),
-            charge=v.charge,
-            blocks={s: _copy_block(b) for s, b in v.blocks.items()},
-            **kw,
-        )
+        # (the harness's own constructions are not subject to the library's
+        # debug self-checks, which e.g. refuse non-finite data)
+        AC = sr.abelian_core
+        dbg = AC.DEBUG
+        AC.DEBUG = False
+        try:
+            new = type(v)(
+                indices=tuple(clone_index(ix) for ix in v.indices),
+                charge=v.charge,
+                blocks={s: _copy_block(b) for s, b in v.blocks.items()},
+                **kw,
+            )
+        finally:
+            AC.DEBUG = dbg
         if snap(new) != snap(v):
             raise HarnessError("clone is not identical to its source: "
                                + str(describe_diff(snap(new), snap(v))))
